@@ -90,6 +90,12 @@ def step (s : OpS) (t : List String) : OpS × StepOut :=
         match parseAddr a, parseTreeAuth au with
         | some a, some au => fin s (Operators.step tgt w (.transferOwnership (au.toList [w.st.owner]) a))
         | _, _ => bad s op
+      | "op.upgrade_migrate", [auth] =>
+        -- upgrade to the same code + migration of the current tree: owner only, and the identity on everything modelled
+        if auth = "@" then (s, ⟨"ok", "ok"⟩) else
+        match parseTreeAuth auth with
+        | some au => if w.st.owner ∈ au.toList [w.st.owner] then (s, ⟨"ok", "ok"⟩) else (s, ⟨"err", "unauthorized"⟩)
+        | none => bad s op
       | "op.execute", [o, c, f, ar, au] =>
         match parseAddr o, parseAddr c, parseArgs ar, parseTreeAuth au with
         | some o, some c, some ar, some au => fin s (Operators.step tgt w (.execute (au.toList [o]) o c (name f) ar))
